@@ -41,6 +41,11 @@ Static rules (DESIGN.md §C02, engine sa/tabchain.py):
                 silently ignored by another)
  unit-vector    (shared with C06) `v[k] /= n`, n = sqrt(sum v[i]^2): guarded against n == 0 in functions reachable
                 from python in which n occurs in no other denominator
+ layout-aware   plans.py: arithmetic pairing interpolation coefficients (results of get_interpolation_coefficients, ...)
+                with an operand broadcast along one explicit axis sits under a coef_order test, uses an operand chosen
+                under one, or follows `if coef_order == 'gq': p = p.T` (outer products on both axes are neutral)
+ rank-drop      sdmx.py / sdmx_slow.py: the result of a producer that drops its leading axis (`if comp == 1: ao = ao[0]`),
+                called with an argument sliced to one element, is reshaped before it is subscripted
  expnt-kind     get_function_to_convolve (inherited): the method of self that supplies the factor for rho_mult='expnt'
                 is resolved through the MRO of every plan class; its first result is the exponent (eval_feat_exp), never
                 an exponent that went through get_a2q_fast (exponent -> index)
@@ -1770,6 +1775,167 @@ def rule_expnt_kind(chk):
 
 
 # ----------------------------------------------------------------------------------------------
+# layout-aware: axis-specific arithmetic on interpolation coefficients depends on coef_order
+# ----------------------------------------------------------------------------------------------
+COEF_PRODUCERS = {"get_interpolation_coefficients", "_get_interpolation_coefficients",
+                  "_get_ovlp_fit_interpolation_coefficients", "empty_coefs"}
+
+
+def _has_axis_broadcast(e):
+    """X[:, None] / X[None, :] / X[None] somewhere in e"""
+    for x in ast.walk(e):
+        if isinstance(x, ast.Subscript):
+            idx = x.slice.elts if isinstance(x.slice, ast.Tuple) else [x.slice]
+            if any(isinstance(i, ast.Constant) and i.value is None for i in idx):
+                return True
+    return False
+
+
+def rule_layout_aware(chk):
+    """The interpolation coefficients p, dp are (ngrids, nalpha) for coef_order 'gq' and (nalpha, ngrids) for 'qg' (the
+    two fill loops of cider_coefs.c).  Arithmetic that pairs them with an operand broadcast along one explicit axis
+    (`x[:, None]`, `x[None, :]`) is right for one layout only: it must sit under a test of coef_order, use an operand that
+    was itself chosen under such a test, or follow a normalisation of the array (`if coef_order == 'gq': p = p.T`)."""
+    from sa import cfg as cfgm
+    mod = chk.tree.py(PLANS)
+    n = 0
+    for fn in [f for f in ast.walk(mod) if isinstance(f, ast.FunctionDef)]:
+        coefs = set()
+        for st in pf.walk_no_nested(fn):
+            if isinstance(st, ast.Assign) and isinstance(st.value, ast.Call) and \
+                    (pf.call_name(st.value) or "").split(".")[-1] in COEF_PRODUCERS:
+                for t in st.targets:
+                    for y in (t.elts if isinstance(t, ast.Tuple) else [t]):
+                        if isinstance(y, ast.Name) and y.id != "_":
+                            coefs.add(y.id)
+        if not coefs:
+            continue
+
+        def under_order(node):
+            return any("coef_order" in pf.src(t) for t, pol, kind in cfgm.conditions_at(node))
+
+        normalised = set()
+        for st in pf.walk_no_nested(fn):
+            if isinstance(st, ast.Assign) and len(st.targets) == 1 and isinstance(st.targets[0], ast.Name) \
+                    and st.targets[0].id in coefs and under_order(st) and pf.base_name(st.value) == st.targets[0].id:
+                normalised.add((st.targets[0].id, st.lineno))
+        chosen = set()  # operand names all of whose assignments sit under a coef_order test
+        for nm in {t.id for st in pf.walk_no_nested(fn) if isinstance(st, ast.Assign) for t in st.targets if isinstance(t, ast.Name)}:
+            defs = [st for st in pf.walk_no_nested(fn) if isinstance(st, ast.Assign)
+                    and any(isinstance(t, ast.Name) and t.id == nm for t in st.targets)]
+            if defs and all(under_order(d) for d in defs):
+                chosen.add(nm)
+        q = pf.qualname(fn)
+        for st in pf.walk_no_nested(fn):
+            pairs = []
+            if isinstance(st, ast.AugAssign) and pf.base_name(st.target) in coefs:
+                pairs.append((pf.base_name(st.target), st.value))
+            if isinstance(st, ast.BinOp):
+                for a, b in ((st.left, st.right), (st.right, st.left)):
+                    if isinstance(a, ast.Name) and a.id in coefs:
+                        pairs.append((a.id, b))
+            for var, other in pairs:
+                local_defs = []
+                if isinstance(other, ast.Name):
+                    local_defs = [d.value for d in pf.walk_no_nested(fn) if isinstance(d, ast.Assign)
+                                  and any(isinstance(t, ast.Name) and t.id == other.id for t in d.targets)]
+                axis = _has_axis_broadcast(other) or any(_has_axis_broadcast(d) for d in local_defs)
+                if not axis:
+                    continue
+                txt = pf.src(other).replace(" ", "")
+                if "[None,:]" in txt and "[:,None]" in txt:
+                    continue  # outer product v[None, :] * v[:, None]: the same on both axes, layout neutral
+                n += 1
+                inst = "%s:%s `%s`" % (PLANS, q, pf.src(st)[:70])
+                ok_ = under_order(st) or (isinstance(other, ast.Name) and other.id in chosen) or \
+                    any(v == var and ln < st.lineno for v, ln in normalised)
+                if ok_:
+                    chk.ok("layout-aware", inst)
+                else:
+                    chk.violation("layout-aware", PLANS, q, pf.src(st)[:140], st.lineno,
+                                  "%s holds interpolation coefficients, (ngrids, nalpha) for coef_order='gq' and (nalpha, ngrids) for "
+                                  "'qg'; `%s` is broadcast along one fixed axis, which addresses the exponent axis in one layout and "
+                                  "the grid axis in the other, and nothing here depends on coef_order" % (var, pf.src(other)[:50]),
+                                  instance=inst)
+    chk.count("axis-specific operations on coefficient arrays", n)
+
+
+# ----------------------------------------------------------------------------------------------
+# rank-drop: the result of a producer whose rank depends on its arguments is not indexed with a fixed rank
+# ----------------------------------------------------------------------------------------------
+def rule_rank_drop(chk):
+    """`if comp == 1: ao = ao[0]; return ao`: the returned array loses its leading axis for some arguments.  A caller that
+    subscripts the result (`x[v]`) treats it as having that axis: it must first restore a fixed rank (reshape /
+    atleast_nd / x[None]), as the sibling code paths that receive the full array do."""
+    n = 0
+    for rel in SIBLING_FILES:
+        mod = chk.tree.py(rel)
+        top = {f.name: f for f in mod.body if isinstance(f, ast.FunctionDef)}
+        varying = {}
+        for name, f in top.items():
+            rets = {r.value.id for r in pf.walk_no_nested(f) if isinstance(r, ast.Return) and isinstance(r.value, ast.Name)}
+            for st in pf.walk_no_nested(f):
+                if isinstance(st, ast.Assign) and len(st.targets) == 1 and isinstance(st.targets[0], ast.Name) \
+                        and st.targets[0].id in rets and isinstance(st.value, ast.Subscript) \
+                        and pf.base_name(st.value) == st.targets[0].id and pf.enclosing(st, (ast.If,)) is not None:
+                    idx = st.value.slice.elts if isinstance(st.value.slice, ast.Tuple) else [st.value.slice]
+                    if any(isinstance(i, ast.Constant) and isinstance(i.value, int) for i in idx):
+                        varying[name] = st
+        changed = True
+        while changed:
+            changed = False
+            for name, f in top.items():
+                if name in varying:
+                    continue
+                for r in pf.walk_no_nested(f):
+                    if isinstance(r, ast.Return) and isinstance(r.value, ast.Call) and pf.call_name(r.value) in varying:
+                        varying[name] = varying[pf.call_name(r.value)]
+                        changed = True
+        if not varying:
+            continue
+        for fn in [f for f in ast.walk(mod) if isinstance(f, ast.FunctionDef)]:
+            def one_element(call):
+                # an argument sliced to a single element (x[i : i + 1]): the case in which the producer drops the axis
+                for x in ast.walk(call):
+                    if isinstance(x, ast.Slice) and x.lower is not None and x.upper is not None and \
+                            pf.src(x.upper).replace(" ", "") in (pf.src(x.lower).replace(" ", "") + "+1",
+                                                                 "1+" + pf.src(x.lower).replace(" ", "")):
+                        return True
+                return False
+
+            binds = [st for st in pf.walk_no_nested(fn) if isinstance(st, ast.Assign) and len(st.targets) == 1
+                     and isinstance(st.targets[0], ast.Name) and isinstance(st.value, ast.Call)
+                     and pf.call_name(st.value) in varying and one_element(st.value)]
+            for b in binds:
+                var = b.targets[0].id
+                loop = pf.enclosing(b, (ast.For, ast.While)) or fn
+                fixed_at = None
+                uses = []
+                for x in ast.walk(loop):
+                    if isinstance(x, ast.Assign) and len(x.targets) == 1 and isinstance(x.targets[0], ast.Name) \
+                            and x.targets[0].id == var and x is not b and x.lineno > b.lineno:
+                        src_ = pf.src(x.value)
+                        if any(k in src_ for k in ("reshape", "atleast_", "[None", "expand_dims")):
+                            fixed_at = x.lineno if fixed_at is None else min(fixed_at, x.lineno)
+                    if isinstance(x, ast.Subscript) and isinstance(x.value, ast.Name) and x.value.id == var \
+                            and isinstance(x.ctx, ast.Load) and x.lineno > b.lineno:
+                        uses.append(x)
+                for u in uses:
+                    n += 1
+                    q = pf.qualname(fn)
+                    inst = "%s:%s %s of %s(...)" % (rel, q, pf.src(u), pf.call_name(b.value))
+                    if fixed_at is not None and fixed_at <= u.lineno:
+                        chk.ok("rank-drop", inst)
+                    else:
+                        d = varying[pf.call_name(b.value)]
+                        chk.violation("rank-drop", rel, q, pf.src(u), u.lineno,
+                                      "%s comes from %s, which returns its array without the leading axis in some cases (`%s`, line "
+                                      "%d); `%s` indexes it as if the axis were always there" % (
+                                          var, pf.call_name(b.value), pf.src(d), d.lineno, pf.src(u)), instance=inst)
+    chk.count("subscripts of rank-varying results", n)
+
+
+# ----------------------------------------------------------------------------------------------
 # delegation: a wrapper forwards the parameters it shares with the function it delegates to
 # ----------------------------------------------------------------------------------------------
 DELEGATE_FILES = [SETTINGS, PLANS]
@@ -1894,6 +2060,11 @@ def _analyse_own(chk):
     chk.guard(_unit)
     chk.rule("unit-vector", "a vector divided by its own norm is guarded against norm == 0 (shared with C06)")
     chk.floor("unit-vector", 3, "one per (function, vector): 5 today")
+    chk.guard(rule_layout_aware)
+    chk.guard(rule_rank_drop)
+    chk.rule("layout-aware", "axis-specific arithmetic on the interpolation coefficients depends on coef_order")
+    chk.rule("rank-drop", "results of rank-varying producers are given a fixed rank before they are subscripted")
+    chk.floor("layout-aware", 2, "cmul / occd broadcasts and the set-up normalisations (7 today)")
     chk.guard(rule_expnt_kind)
     chk.rule("expnt-kind", "the factor of rho_mult='expnt' is the exponent (never the spline/ladder index) in every plan class")
     chk.floor("expnt-kind", 2, "NLDFAuxiliaryPlan, NLDFGaussianPlan, NLDFSplinePlan")
@@ -2042,6 +2213,9 @@ def mutants(tree):
                "a, da_tuple = self.get_interpolation_arguments(rho_tuple, i=-1)", expect="expnt-kind"),
         Mutant("auxiliary Mole rebuilt without the unit", "ciderpress/pyscf/nldf_convolutions.py", "            unit=mol.unit,\n", "",
                expect="mole-rebuild"),
+        Mutant("coefficient multipliers broadcast along a fixed axis", PLANS, fn=_fixed_axis_cmul, expect="layout-aware"),
+        Mutant("lowmem loop indexes the one-exponent result without reshape", "ciderpress/pyscf/sdmx_slow.py",
+               "                _cao = _cao.reshape(ncpa, coords.shape[0], -1)\n", "", expect="rank-drop"),
         Mutant("knot-index scaling off by one", PLANS, "di[:] *= (self._spline_size - 1) / (self.nalpha - 1)",
                "di[:] *= self._spline_size / self.nalpha", expect="inverse-pair"),
         Mutant("knot layout off by one", PLANS, "interp_indexes * (self.nalpha - 1) / (self._spline_size - 1)",
@@ -2057,6 +2231,14 @@ def mutants(tree):
         Mutant("etb index uses lambd instead of log(lambd)", F_COEFS, "double ratio = 1.0 / log(lambd);", "double ratio = 1.0 / lambd;",
                expect="inverse-pair"),
     ]
+
+
+def _fixed_axis_cmul(text):
+    a = '                if self.coef_order == "qg":\n                    cmul = np.asarray(coeff_multipliers)[:, None]\n' \
+        '                else:\n                    cmul = np.asarray(coeff_multipliers)[None, :]\n'
+    if a not in text:
+        return None
+    return text.replace(a, "                cmul = np.asarray(coeff_multipliers)[:, None]\n", 1)
 
 
 def _drop_mode_check(text):
